@@ -249,6 +249,27 @@ pub mod kernels {
     // (lines 2 bits, offset 3 bits: a single 12-minute SAT call, the longest job of the quick check by far;
     // the quick tier keeps offsets of 2 bits, the 3-bit form is thorough)
     c07_k_intersection!(c07_q_k_intersection, 2, 2);
+
+    /// Scanline::try_extend (merges the per-row stroke runs of thick polylines and stroked triangles)
+    /// commutes with a horizontal shift: two runs given as symbolic column ranges, or the EMPTY scanline
+    /// (a segment that does not cross the row - its 0..0 placeholder must not act as a coordinate)
+    #[cfg_attr(kani, kani::proof, kani::unwind(4))]
+    pub fn c07_q_k_scanline_extend() {
+        let run = || { let s = small_i(7); let l = small_u(3) as i32; if flag() { Some(s..s + l + 1) } else { None } };
+        let (a, b) = (run(), run());
+        let d = small_i(7);
+        let y = small_i(4);
+        note!("first", a); note!("second", b); note!("d", d);
+        let sh = |r: &Option<core::ops::Range<i32>>| r.as_ref().map(|r| r.start + d..r.end + d);
+        let (e0, r0) = hk::scanline_try_extend(y, a.clone(), b.clone());
+        let (e1, r1) = hk::scanline_try_extend(y, sh(&a), sh(&b));
+        note!("result", (e0, r0.clone())); note!("shifted_result", (e1, r1.clone()));
+        check!(e0 == e1, "C07.scanline_extend");
+        if a.is_some() { check!(r1 == (r0.start + d..r0.end + d), "C07.scanline_extend"); }
+        else { check!(r0.is_empty() && r1.is_empty(), "C07.scanline_extend"); }
+        reach!(e0 && a.is_some() && b.is_some(), "reach.merged");
+        reach!(a.is_some() && b.is_none(), "reach.empty_second");
+    }
     #[cfg(feature = "thorough")]
     c07_k_intersection!(c07_t_k_intersection_d3, 2, 3);
     #[cfg(feature = "thorough")]
